@@ -1260,6 +1260,265 @@ def f():
     except TypeError:
         short = 'TypeError'
     return ln.side(1.0, 0.0), ln.side(0.0, 1.0), tuple(ln), _Line._fields, short, _Line(1.0, 2.0).c, ln._replace(c=5.0).c, _Line._make(iter((1, 2, 3))).b
+---
+class _Found(Exception):
+    def __init__(self, where, value):
+        super().__init__('found')
+        self.where = where
+        self.value = value
+def f():
+    rows = [[1, 2], [3, 4], [5, 6]]
+    def search(v):
+        try:
+            for i, r in enumerate(rows):
+                for j, x in enumerate(r):
+                    if x == v:
+                        raise _Found((i, j), x)
+        except _Found as hit:
+            return hit.where, hit.value, str(hit), hit.args
+        else:
+            return None
+        finally:
+            rows.append([0])
+    return search(4), search(9), len(rows)
+---
+def f():
+    out = []
+    for n in (7, 8, 9):
+        for d in range(2, n):
+            if n % d == 0:
+                out.append((n, d))
+                break
+        else:
+            out.append((n, 'prime'))
+    k = 0
+    while k < 3:
+        k += 1
+    else:
+        out.append(('done', k))
+    _MISSING = object()
+    d = {'a': None}
+    out.append((d.get('a', _MISSING) is _MISSING, d.get('b', _MISSING) is _MISSING))
+    it = iter([1, 2, 0, 4])
+    out.append(list(iter(lambda: next(it), 0)))
+    return out
+---
+import abc as _abc
+class _Strategy(_abc.ABC):
+    registry = {}
+    def __init_subclass__(cls, code=None, **kw):
+        super().__init_subclass__(**kw)
+        if code is not None:
+            _Strategy.registry[code] = cls
+    @_abc.abstractmethod
+    def pick(self, xs):
+        ...
+    def run(self, xs):
+        return self.pick(list(xs))
+class _First(_Strategy, code=1):
+    def pick(self, xs):
+        return xs[0]
+class _Last(_Strategy, code=2):
+    def pick(self, xs):
+        return xs[-1]
+def _make(code):
+    return _Strategy.registry[code]()
+def f():
+    try:
+        _Strategy()
+        abstract = None
+    except TypeError:
+        abstract = 'TypeError'
+    return _make(1).run((4, 5, 6)), _make(2).run((4, 5, 6)), sorted(_Strategy.registry), abstract, isinstance(_make(1), _Strategy)
+---
+import functools as _functools
+@_functools.total_ordering
+class _Key:
+    def __init__(self, a, b):
+        self.a, self.b = a, b
+    def __eq__(self, o):
+        return (self.a, self.b) == (o.a, o.b)
+    def __lt__(self, o):
+        return (self.a, self.b) < (o.a, o.b)
+    def __hash__(self):
+        return hash((self.a, self.b))
+def f():
+    ks = [_Key(2, 1), _Key(1, 5), _Key(1, 2)]
+    s = sorted(ks)
+    return [(k.a, k.b) for k in s], _Key(1, 1) <= _Key(1, 1), _Key(2, 0) > _Key(1, 9), _Key(1, 2) >= _Key(1, 3), max(ks).a, len({_Key(1, 1), _Key(1, 1)})
+---
+import functools as _functools
+class _Positive:
+    def __set_name__(self, owner, name):
+        self.slot = '_' + name
+    def __get__(self, obj, objtype=None):
+        if obj is None:
+            return self
+        return getattr(obj, self.slot)
+    def __set__(self, obj, value):
+        if value <= 0:
+            raise ValueError('positive')
+        setattr(obj, self.slot, value)
+class _Cell:
+    width = _Positive()
+    def __init__(self, width):
+        self.width = width
+        self.calls = 0
+    @_functools.cached_property
+    def area(self):
+        self.calls += 1
+        return self.width * self.width
+def f():
+    c = _Cell(3)
+    a1, a2 = c.area, c.area
+    try:
+        c.width = -1
+        err = None
+    except ValueError as ex:
+        err = str(ex)
+    c.width = 5
+    return a1, a2, c.calls, err, c.width, c._width, c.area
+---
+class _Scale:
+    def __init__(self, k):
+        self.k = k
+        self.n = 0
+    def __call__(self, x, *, offset=0):
+        self.n += 1
+        return self.k * x + offset
+class _Countdown:
+    def __init__(self, n):
+        self.n = n
+    def __iter__(self):
+        return self
+    def __next__(self):
+        if self.n <= 0:
+            raise StopIteration
+        self.n -= 1
+        return self.n
+class _Restore:
+    def __init__(self, box, key, value):
+        self.box, self.key, self.value = box, key, value
+    def __enter__(self):
+        self.old = self.box[self.key]
+        self.box[self.key] = self.value
+        return self.box
+    def __exit__(self, et, ev, tb):
+        self.box[self.key] = self.old
+        return et is KeyError
+def f():
+    s = _Scale(3)
+    box = {'mode': 1}
+    seen = []
+    with _Restore(box, 'mode', 2) as b:
+        seen.append(b['mode'])
+    with _Restore(box, 'mode', 7):
+        seen.append(box['mode'])
+        raise KeyError('swallowed')
+    try:
+        with _Restore(box, 'mode', 9):
+            raise ValueError('x')
+    except ValueError:
+        seen.append('ve')
+    return list(map(s, [1, 2])), s(1, offset=4), s.n, list(_Countdown(3)), sum(_Countdown(4)), seen, box, callable(s)
+---
+def _register(cls):
+    cls.tag = cls.__name__.lower()
+    cls.describe = lambda self: self.tag + str(self.v)
+    return cls
+@_register
+class _Box:
+    def __init__(self, v):
+        self.v = v
+def _g(a, b, /, c, *, d=4, **rest):
+    return a, b, c, d, sorted(rest.items())
+def _fwd(*args, **kwargs):
+    return _g(*args, **kwargs)
+def f():
+    try:
+        _g(1, 2, 3, 5)
+        e1 = None
+    except TypeError:
+        e1 = 'TypeError'
+    try:
+        _g(1, b=2, c=3)
+        e2 = None
+    except TypeError:
+        e2 = 'TypeError'
+    pos = (1, 2)
+    kw = {'c': 3, 'z': 0}
+    return _Box(3).describe(), _Box.tag, _fwd(1, 2, 3, d=5, e=6), _fwd(*pos, **kw), e1, e2
+---
+import operator as _op
+class _P:
+    def __init__(self, x, y):
+        self.x, self.y = x, y
+    def norm1(self, k=1):
+        return k * (abs(self.x) + abs(self.y))
+def f():
+    ps = [_P(3, -1), _P(1, 2), _P(1, -5)]
+    gx, gxy = _op.attrgetter('x'), _op.attrgetter('x', 'y')
+    rows = [(1, 'b', 2.5), (0, 'a', 1.5)]
+    cols = list(zip(*rows))
+    return ([gx(p) for p in ps], [gxy(p) for p in sorted(ps, key=gxy)], list(map(_op.methodcaller('norm1'), ps)), _op.methodcaller('norm1', k=2)(ps[0]),
+            _op.itemgetter(1)(rows[0]), _op.itemgetter(2, 0)(rows[1]), sorted(rows, key=_op.itemgetter(1)), cols, divmod(-7, 2), divmod(7.5, 2))
+---
+def f():
+    s = 'track_12.csv.bak'
+    t = {ord('_'): '-', ord('.'): None}
+    d1, d2 = {'a': 1, 'b': 2}, {'b': 3, 'c': 4}
+    xs = list(range(10))
+    return (s.partition('.'), s.rpartition('.'), s.rsplit('.', 1), s.split('.', 1), 'x'.partition('.'), '7'.zfill(3), '-7'.zfill(4), 'ab'.ljust(4, '.'), 'ab'.rjust(4),
+            '{a}-{b}'.format_map(d1), s.translate(t), d1 | d2, d1.keys() & d2.keys(), d1.keys() - d2.keys(), sorted(d1.items() | d2.items()), {1, 2} | {2, 3}, {1, 2} & {2, 3}, {1, 2} - {2}, {1, 2} ^ {2, 3},
+            xs[::2], xs[::-3], xs[-3:], xs[8:2:-2], xs[:-7:-1], s[::-1][:3], 1 < 2 <= 2 < 3, 'y' if xs else 'n', any(x > 8 for x in xs), all(x < 9 for x in xs),
+            sorted([(2, 'a'), (1, 'b'), (2, 'A')], key=lambda r: (-r[0], r[1])), list(d1.items())[-1], s.startswith(('tr', 'x')), s.endswith('.bak'), s.casefold(), ' a b '.split(), 'a,b,,c'.split(','), s.count('.'), s.find('z'), s.index('1'))
+---
+class _Stack:
+    def __init__(self):
+        self._items = []
+    def push(self, *xs):
+        self._items.extend(xs)
+    def __bool__(self):
+        return bool(self._items)
+    def pop(self):
+        return self._items.pop()
+def _walk(tree):
+    stack = _Stack()
+    stack.push(tree)
+    while stack:
+        node = stack.pop()
+        if isinstance(node, tuple):
+            stack.push(*reversed(node))
+        else:
+            yield node
+def _depth(tree):
+    return 1 + max(map(_depth, tree), default=0) if isinstance(tree, tuple) else 0
+def f():
+    t = (1, (2, (3, 4)), (), 5)
+    return list(_walk(t)), _depth(t), _depth(())
+---
+class _Err(ValueError):
+    pass
+def _parse(s):
+    try:
+        return int(s)
+    except ValueError:
+        raise _Err('bad %r' % s) from None
+def f():
+    out = []
+    for s in ('4', 'x'):
+        try:
+            out.append(_parse(s))
+        except ValueError as ex:
+            out.append((type(ex).__name__, str(ex), isinstance(ex, _Err), ex.__cause__ is None))
+    try:
+        try:
+            raise KeyError('k')
+        except KeyError as ex:
+            raise RuntimeError('wrapped') from ex
+    except RuntimeError as ex2:
+        out.append((str(ex2), type(ex2.__cause__).__name__))
+    return out
 '''
 
 
